@@ -59,7 +59,7 @@ func Minimise(h Hooks, c Case, class string, maxAttempts int) (Case, int) {
 		// every reproducing attempt leaves a goroutine that never returns: do not minimise in-process
 		return c.Clone(), 0
 	}
-	deadline := time.Now().Add(90 * time.Second) // bounds the minimiser only; decides nothing
+	deadline := time.Now().Add(45 * time.Second) // bounds the minimiser only; decides nothing
 	still := func(cand Case) bool {
 		if attempts >= maxAttempts || time.Now().After(deadline) {
 			return false
@@ -176,9 +176,8 @@ func Minimise(h Hooks, c Case, class string, maxAttempts int) (Case, int) {
 			}
 		}
 
-		// 2. drop whole statements (with their semicolon)
-		for {
-			progress := false
+		// 2. drop whole statements (with their semicolon): delta debugging over contiguous groups
+		stmtRanges := func() [][2]int {
 			toks := parser.Scan(string(cur.Input))
 			start := 0
 			var ranges [][2]int
@@ -191,14 +190,27 @@ func Minimise(h Hooks, c Case, class string, maxAttempts int) (Case, int) {
 			if start < len(cur.Input) {
 				ranges = append(ranges, [2]int{start, len(cur.Input)})
 			}
-			for i := len(ranges) - 1; i >= 0; i-- {
-				if try(removeRange(cur, ranges[i][0], ranges[i][1])) {
+			return ranges
+		}
+		for chunk := (len(stmtRanges()) + 1) / 2; chunk >= 1; {
+			ranges := stmtRanges()
+			progress := false
+			for i := len(ranges) - chunk; i >= 0; i -= chunk {
+				if try(removeRange(cur, ranges[i][0], ranges[i+chunk-1][1])) {
 					progress = true
 					break
 				}
 			}
 			if !progress {
-				break
+				if chunk == 1 {
+					break
+				}
+				chunk /= 2
+			} else if n := len(stmtRanges()); chunk > n {
+				chunk = n
+				if chunk == 0 {
+					break
+				}
 			}
 		}
 
